@@ -15,3 +15,4 @@ import AGV.Props.C18
 #print axioms AGV.Props.C18.c18_visible_closed
 #print axioms AGV.Props.C18.c18_roundtrip_wf
 #print axioms AGV.Props.C18.c18_roundtrip_refuted
+#print axioms AGV.Props.C18.c18_single_pass_differs
